@@ -38,7 +38,7 @@ Lemma load_suppression_sf_lemma : forall scripts sched k,
        nth_error (threads s) (fst (clead c)) = Some thL /\
        nth_error (tscript thL) (snd (clead c)) = Some oL /\
        ogrp oL = GSF /\ okey oL = k /\
-       (rval r, rerr r) = (oval oL, oerr oL) /\
+       (panics oL = false -> (rval r, rerr r) = (oval oL, oerr oL)) /\
        (rfresh r = true -> clead c = (t, rop r) /\ rruns r = 1) /\
        (rfresh r = false -> fst (clead c) <> t /\ rruns r = 0 /\ cinvt c <= rjoin r /\
                             exists rt, cret c = Some rt /\ rjoin r < rt)) /\
@@ -47,7 +47,7 @@ Lemma load_suppression_sf_lemma : forall scripts sched k,
      In r1 (tres th1) -> In r2 (tres th2) ->
      nth_error (tscript th1) (rop r1) = Some o1 -> nth_error (tscript th2) (rop r2) = Some o2 ->
      ogrp o1 = GSF -> ogrp o2 = GSF -> rcid r1 = rcid r2 ->
-     (rval r1, rerr r1) = (rval r2, rerr r2) /\
+     shared (rval r1, rerr r1) = shared (rval r2, rerr r2) /\
      (rfresh r1 = true -> rfresh r2 = true -> t1 = t2 /\ rop r1 = rop r2)).
 Proof.
   intros scripts sched k s. pose proof (exec_inv scripts sched) as HI. fold s in HI.
@@ -59,10 +59,12 @@ Proof.
     assert (Hn : cgrp (heap s (rcid r)) <> GRM) by (rewrite A3, Hg; discriminate).
     destruct (exec_value s (rcid r) HI A2 Hn) as (thL & oL & B1 & B2 & B3 & B4 & B5).
     exists thL, oL. subst c.
-    assert (V : cval (heap s (rcid r)) = Some (rval r, rerr r)) by (apply A9; rewrite Hg; discriminate).
     split; [exact B1|]. split; [exact B2|].
     split; [rewrite B3, A3; exact Hg|]. split; [rewrite B4, A4; exact Hk|].
-    split; [apply B5; exact V|]. split.
+    split.
+    { intros Hnp. destruct (sf_result_of_leader s t th r o HI Ht Hr Ho Hg) as (thL' & oL' & C1 & C2 & _ & _ & _ & C6).
+      rewrite B1 in C1. inversion C1; subst thL'. rewrite B2 in C2. inversion C2; subst oL'. exact (C6 Hnp). }
+    split.
     + intro F. destruct (A10 F) as (L1 & L2 & _). split; assumption.
     + intro F. destruct (A11 F) as (L1 & L2 & L3 & L4). repeat split; assumption.
   - intros t1 t2 th1 th2 r1 r2 o1 o2 H1 H2 I1 I2 O1 O2 G1 G2 Ec.
@@ -72,8 +74,8 @@ Proof.
       as (o2' & B0 & _ & _ & _ & _ & _ & _ & _ & _ & B9 & B10 & _).
     rewrite O1 in A0. inversion A0; subst o1'. rewrite O2 in B0. inversion B0; subst o2'.
     split.
-    + assert (V1 : cval (heap s (rcid r1)) = Some (rval r1, rerr r1)) by (apply A9; rewrite G1; discriminate).
-      assert (V2 : cval (heap s (rcid r2)) = Some (rval r2, rerr r2)) by (apply B9; rewrite G2; discriminate).
+    + assert (V1 : cval (heap s (rcid r1)) = Some (shared (rval r1, rerr r1))) by (apply A9; rewrite G1; discriminate).
+      assert (V2 : cval (heap s (rcid r2)) = Some (shared (rval r2, rerr r2))) by (apply B9; rewrite G2; discriminate).
       rewrite Ec in V1. rewrite V1 in V2. inversion V2. reflexivity.
     + intros F1 F2. destruct (A10 F1) as (L1 & _). destruct (B10 F2) as (L2 & _).
       rewrite Ec in L1. rewrite L1 in L2. inversion L2. auto.
